@@ -134,7 +134,8 @@ func keyedOp(k *keyed.Keyed[int, int], m *keyModel, op int) {
 	}
 }
 
-// H_C06_History: a symbolic history of three key-set operations over keys {1,2} (SetKey,
+// H_C06_History: from an initial key set (empty, {1} or {1,2}: symbolic) a symbolic history of
+// three key-set operations over keys {1,2} (SetKey,
 // RemoveKey, SyncKeys of any subset, with a duplicate) on a container without context, with or
 // without a release delay (symbolic); every return value and GetKey/GetKeys agree with the
 // reference model after every operation; then the delay expires and the key set is compared
@@ -149,6 +150,16 @@ func H_C06_History() {
 		k = keyed.NewKeyed[int, int](ctor)
 	}
 	m := &keyModel{delay: delay}
+	// initial key set: 0 empty, 1 {1}, 2 {1,2}
+	init := vrt.Int("init", 0, 2)
+	if init >= 1 {
+		k.SetKey(1, false)
+		m.request(1)
+	}
+	if init >= 2 {
+		k.SetKey(2, false)
+		m.request(2)
+	}
 	ops := [3]int{vrt.Int("op0", 0, 7), vrt.Int("op1", 0, 7), vrt.Int("op2", 0, 7)}
 	for i := 0; i < 3; i++ {
 		keyedOp(k, m, ops[i])
